@@ -54,6 +54,30 @@ func ruleFCShrink(r *Report) {
 			f := fieldOfLoad(v)
 			return f == "FileCache.ll" || f == "FileCache.cache"
 		})
+		// the bound is the capacity the cache had when the call began: a load of the capacity field that the
+		// assignment of the new capacity can reach reads the new value, and the loop then runs zero times
+		stale := false
+		for _, v := range []ssa.Value{bound, ind.Edges[0], ind.Edges[len(ind.Edges)-1]} {
+			derives(v, flowOpts{Arith: true}, func(x ssa.Value) bool {
+				if fieldOfLoad(x) != "FileCache.capacity" {
+					return false
+				}
+				ld, _ := x.(*ssa.UnOp)
+				for _, st := range fieldStores(fn, "FileCache.capacity") {
+					if ld != nil {
+						if reach, _ := (Search{Fn: fn, From: st, Target: isInstr(ld)}).Run(); reach {
+							stale = true
+						}
+					}
+				}
+				return false
+			})
+		}
+		if stale {
+			r.Bad(rule, "SetCacheSize/evict-loop-counts-old-capacity", instrPos(ifi), "the eviction loop counts between the new capacity and a capacity field that has already been overwritten with the new capacity: it runs zero times, the excess entries stay cached and more descriptors than the new capacity stay open")
+		} else {
+			r.Ok(rule, "SetCacheSize/evict-loop-counts-old-capacity", instrPos(ifi), "the eviction loop reads the capacity field before it is overwritten")
+		}
 		if dep {
 			r.Bad(rule, "SetCacheSize/evict-loop-bound-invariant", instrPos(ifi), "the eviction loop counts up to a bound that shrinks as entries are evicted (e.g. ll.Len()): only about half of the excess entries are evicted, so more descriptors than the new capacity stay open")
 		} else {
